@@ -30,11 +30,17 @@ func MX() []*descriptorpb.FileDescriptorProto {
 	other.Field("v", 1, S(Int32))
 	other.Field("s", 2, S(String))
 	other.Field("e", 3, E(oe))
+	other.Map("om", 4, String, S(Int32)) // a map below a message of ANOTHER Go package (options must be carried across)
+	other.Rep("ol", 5, S(Sint64))
 
 	// --- second file of package mx
 	f2 := NewFile("mx/mx2.proto", "mx", GenRoot+"mx")
 	color := f2.Enum("Color", "COLOR_ZERO", 0, "RED", 1, "BLUE", 5, "NEGATIVE", -3)
-	ce := f2.P.EnumType[len(f2.P.EnumType)-1]
+	// numbers 0..2 without holes but declared out of number order; an enum with aliases
+	dense := f2.Enum("Dense", "DENSE_ZERO", 0, "DENSE_TWO", 2, "DENSE_ONE", 1)
+	alias := f2.Enum("Alias", "ALIAS_ZERO", 0, "ALIAS_ALSO_ZERO", 0, "ALIAS_ONE", 1, "ALIAS_UNO", 1, "ALIAS_TWO", 2)
+	f2.P.EnumType[len(f2.P.EnumType)-1].Options = &descriptorpb.EnumOptions{AllowAlias: proto.Bool(true)}
+	ce := f2.P.EnumType[len(f2.P.EnumType)-3]
 	ce.ReservedRange = []*descriptorpb.EnumDescriptorProto_EnumReservedRange{{Start: proto.Int32(2), End: proto.Int32(4)}, {Start: proto.Int32(-10), End: proto.Int32(-10)}}
 	ce.ReservedName = []string{"GREEN"}
 	sec := f2.Msg("Sec")
@@ -199,6 +205,13 @@ func MX() []*descriptorpb.FileDescriptorProto {
 	wkt.Map("ts_by_id", 7, Int32, M(tsT))
 	wkt.Rep("durs", 8, M(durT))
 	wkt.Map("color_by_flag", 9, Bool, E(color))
+
+	enums := f.Msg("Enums") // enums whose declaration order differs from their number order / with aliases
+	enums.Field("d", 1, E(dense))
+	enums.Rep("ds", 2, E(dense))
+	enums.Field("a", 3, E(alias))
+	enums.Map("da", 4, Int32, E(alias))
+	enums.OneofField("oe", "od", 5, E(dense))
 
 	anys := f.Msg("Anys") // several Any values in one message, early in the draw order
 	anys.Rep("items", 1, M(anyT))
